@@ -130,7 +130,20 @@ static table_t* wide_int_table(int ncols, int nrg) { table_t* t = (table_t*)call
     for (int g = 0; g < nrg; g++) { t->rg_rows[g] = 1; t->rg[g] = (tchunk_t*)calloc((size_t)ncols, sizeof(tchunk_t)); for (int c = 0; c < ncols; c++) { tchunk_t* k = &t->rg[g][c]; k->nlevels = 1; k->nvals = 1; k->def = (int16_t*)calloc(2, 2); k->rep = (int16_t*)calloc(2, 2); k->fixed = (uint8_t*)malloc(4); int32_t v = g * 31 + c; memcpy(k->fixed, &v, 4); k->nbatches = 1; k->batch_rows = (int64_t*)malloc(8); k->batch_rows[0] = 1; } }
     return t; }
 static void limits_cases(const char* dir, int big) { static const int SH[][2] = {{9999, 1}, {10000, 1}, {10001, 1}, {1, 100000}, {1, 100001}}; char tag[120];
-    for (int q = 0; q < (big ? 5 : 3); q++) { table_t* t = wide_int_table(SH[q][0], SH[q][1]); snprintf(tag, sizeof tag, "limits cols=%d row_groups=%d", SH[q][0], SH[q][1]); run_case(t, dir, 600000 + q * 2, tag); v_count("tables_at_parser_limits"); tbl_free(t); } }
+    for (int q = 0; q < (big ? 5 : 3); q++) { table_t* t = wide_int_table(SH[q][0], SH[q][1]); snprintf(tag, sizeof tag, "limits cols=%d row_groups=%d", SH[q][0], SH[q][1]); { const char* keep_was = KEEP; if (SH[q][1] > 1000) KEEP = NULL;   /* 100000 row groups are for carquet's own round trip; the Python reader of C05 would need hours for them */ run_case(t, dir, 600000 + q * 2, tag); KEEP = keep_was; } v_count("tables_at_parser_limits"); tbl_free(t); } }
+
+/* 2^31 rows (thorough tier): an OPTIONAL INT32 column that is NULL throughout, written in 128 batches of 2^24 rows. The file is a few KiB,
+ * every 64-bit count in the footer (file rows, row-group rows, chunk values) is beyond 32 bits. C05 checks the counts page by page. */
+static void rows_beyond_32_bits_case(const char* dir) { char path[512]; snprintf(path, sizeof path, "%s/c.parquet", dir); unlink(path); carquet_error_t err = CARQUET_ERROR_INIT; carquet_schema_t* s = carquet_schema_create(&err); if (!s) return;
+    if (carquet_schema_add_column(s, "always_null", CARQUET_PHYSICAL_INT32, NULL, CARQUET_REPETITION_OPTIONAL, 0) != CARQUET_OK) { carquet_schema_free(s); return; }
+    carquet_writer_options_t wo; carquet_writer_options_init(&wo); wo.compression = CARQUET_COMPRESSION_UNCOMPRESSED; carquet_writer_t* w = carquet_writer_create(path, s, &wo, &err); if (!w) { carquet_schema_free(s); return; }
+    const int64_t B = 1 << 24; int16_t* defs = (int16_t*)calloc((size_t)B, 2); int32_t dummy = 0; int ok = 1; int64_t rows = 0; for (int q = 0; q < 128 && ok; q++) { if (carquet_writer_write_batch(w, 0, &dummy, B, defs, NULL) != CARQUET_OK) ok = 0; else rows += B; }
+    carquet_status_t cs = carquet_writer_close(w); carquet_schema_free(s); free(defs); v_case(77); v_count("tables_with_2^31_rows");
+    if (!ok || cs != CARQUET_OK) { v_count("writer_refused"); unlink(path); return; }
+    carquet_reader_t* rd = carquet_reader_open(path, NULL, &err); if (!rd) v_viol("roundtrip:reopen-failed", "2^31 null rows: code=%d msg=%s", err.code, err.message); else { if (carquet_reader_num_rows(rd) != rows) v_viol("roundtrip:row-count", "2^31 null rows: got=%lld want=%lld", (long long)carquet_reader_num_rows(rd), (long long)rows); carquet_reader_close(rd); }
+    if (KEEP && getenv("CQV_KEEP_STRUCTURE_ONLY")) { char dst[600], cmd[1400]; snprintf(dst, sizeof dst, "%s/case_%lld", KEEP, (long long)KEPT++); snprintf(cmd, sizeof cmd, "%s.tdmp", dst); FILE* f = fopen(cmd, "w"); if (f) fclose(f); snprintf(cmd, sizeof cmd, "%s.parquet", dst); rename(path, cmd);
+        snprintf(cmd, sizeof cmd, "%s.meta", dst); f = fopen(cmd, "w"); if (f) { fprintf(f, "codec=0 page_size=0 nrg=1 ncols=1 tag=counts-only rows=%lld\n", (long long)rows); fclose(f); } }
+    unlink(path); }
 
 static void codec_boundary_cases(const char* dir, uint64_t seed, int count) { char tag[160];
     static const int64_t RS[] = {1, 3, 4, 8, 11, 12, 13, 14, 15, 16, 17, 59, 60, 61, 254, 255, 256, 269, 270, 271, 524, 525, 526, 779, 780, 781, 1034, 1035, 2047, 2048, 2049, 4095, 4096, 32767, 32768, 32769, 65534, 65535, 65536, 65537};
@@ -139,6 +152,10 @@ static void codec_boundary_cases(const char* dir, uint64_t seed, int count) { ch
     { static const int64_t CR[] = {2047, 2048, 2049, 65535, 65536, 65537}; static const int64_t CL[] = {4, 8, 64}; /* every critical match distance x a few lengths x Snappy and LZ4, always */
       for (int a = 0; a < 6; a++) for (int b2 = 0; b2 < 3; b2++) for (int cd = 0; cd < 2; cd++) { int64_t r = CR[a], L = CL[b2], tl = 13; int64_t n = r + L + tl; uint8_t* b = (uint8_t*)malloc((size_t)n + 1); vrng_bytes(&R, b, (size_t)r); for (int64_t i = r; i < r + L; i++) b[i] = b[i - r]; vrng_bytes(&R, b + r + L, (size_t)tl);
           table_t* t = bytes_table(cd ? CARQUET_COMPRESSION_LZ4 : CARQUET_COMPRESSION_SNAPPY, b, n); snprintf(tag, sizeof tag, "codec-boundary seed=%llu codec=%d literal=%lld match_len=%lld (fixed set)", (unsigned long long)seed, t->codec, (long long)r, (long long)L); run_case(t, dir, 250000 + a * 6 + b2 * 2 + cd, tag); v_count("codec_boundary_pages"); tbl_free(t); free(b); } }
+    { /* pages that are one single literal of a critical length (incompressible bytes): the literal-length forms change at 60/61, 256/257, 65536/65537 and 2^24/2^24+1 bytes */
+      static const int64_t WL[] = {59, 60, 61, 62, 255, 256, 257, 258, 65535, 65536, 65537, 65538, 16777216, 16777217}; int nwl = count >= 600 ? 14 : 12;
+      for (int a = 0; a < nwl; a++) for (int cd = 0; cd < 2; cd++) { int64_t n = WL[a]; uint8_t* b = (uint8_t*)malloc((size_t)n + 1); vrng_bytes(&R, b, (size_t)n); table_t* t = bytes_table(cd ? CARQUET_COMPRESSION_LZ4 : CARQUET_COMPRESSION_SNAPPY, b, n); t->page_size = 1 << 26;
+          snprintf(tag, sizeof tag, "codec-boundary seed=%llu codec=%d whole page one literal of %lld bytes", (unsigned long long)seed, t->codec, (long long)n); run_case(t, dir, 260000 + a * 2 + cd, tag); v_count("codec_boundary_pages"); v_count("pages_of_one_critical_length_literal"); tbl_free(t); free(b); } }
     for (int q = 0; q < count; q++) { int codec = T_CODECS[1 + q % 4]; int64_t r = vrng_chance(&R, 2, 3) ? RS[vrng_below(&R, sizeof RS / sizeof *RS)] : 1 + (int64_t)vrng_below(&R, 3000); int64_t L = vrng_chance(&R, 2, 3) ? LS[vrng_below(&R, sizeof LS / sizeof *LS)] : 4 + (int64_t)vrng_below(&R, 400); int64_t tl = TS[vrng_below(&R, sizeof TS / sizeof *TS)];
         int64_t n = r + L + tl; uint8_t* b = (uint8_t*)malloc((size_t)n + 1); vrng_bytes(&R, b, (size_t)r); for (int64_t i = r; i < r + L; i++) b[i] = b[i - r]; vrng_bytes(&R, b + r + L, (size_t)tl);
         if (vrng_chance(&R, 1, 4)) { /* a second match further on, so that one sequence follows another */ int64_t off2 = 1 + (int64_t)vrng_below(&R, (uint64_t)(r < 1 ? 1 : r)); for (int64_t i = r + L; i < n; i++) b[i] = b[i - off2]; }
@@ -202,7 +219,7 @@ int main(int argc, char** argv) {
         { static const int NC[] = {9, 10, 11, 12, 13, 14, 15, 16, 17, 18, 31, 32, 33, 63, 64, 65, 127, 128, 129}; static const int NG[] = {5, 6, 7, 8, 13, 14, 15, 16, 17, 31, 32, 33};
           for (int q = 0; q < (int)(sizeof NC / sizeof *NC) + (int)(sizeof NG / sizeof *NG); q++) { int wide = q < (int)(sizeof NC / sizeof *NC); tgen_t g2 = {8, 12, 0, -1, -1, -1, 0, wide ? 1 + (int)vrng_below(&R, 2) : NG[q - (int)(sizeof NC / sizeof *NC)], wide ? NC[q] : 1 + (int)vrng_below(&R, 3)};
               table_t* t = tbl_generate(&R, &g2); snprintf(tag, sizeof tag, "shape seed=%llu cols=%d row_groups=%d", (unsigned long long)seed, t->ncols, t->nrg); run_case(t, dir, 100000 + q, tag); v_count(wide ? "shape_sweep_wide_tables" : "shape_sweep_many_row_groups"); tbl_free(t); } }
-        codec_boundary_cases(dir, seed, scale >= 2 ? 600 : 120); lookalike_cases(dir, seed, scale >= 2 ? 60 : 12); level_run_cases(dir, seed, scale >= 2); create_close_only_case(dir, seed); refused_batch_case(dir, seed); if (scale >= 1) limits_cases(dir, scale >= 2);
+        codec_boundary_cases(dir, seed, scale >= 2 ? 600 : 120); lookalike_cases(dir, seed, scale >= 2 ? 60 : 12); level_run_cases(dir, seed, scale >= 2); create_close_only_case(dir, seed); refused_batch_case(dir, seed); if (scale >= 1) limits_cases(dir, scale >= 2); if (scale >= 2 && (seed % 1000) == 0) rows_beyond_32_bits_case(dir);   /* once per run: the first shard */
         v_sample("gen: %lld random tables: 1..8 columns over 7 physical types x REQUIRED/OPTIONAL, 1..4 row groups, rows 0..400 (some up to 60000), 5 codecs, page_size {1,64,1024,65536,default}, batch partitions {single,1-row,small,random incl. 0-row,halving}, interleaved columns", (long long)cases);
     } else if (!strcmp(mode, "enum")) {
         /* all (null pattern x batch partition) pairs for one OPTIONAL column of n rows; all batch partitions for a boolean column */
